@@ -188,7 +188,7 @@ pub fn build<R: Res>(t: &Tree) -> Option<Built<R>> {
     }))
 }
 
-fn run_pol<R: Res>(seed: u64, n: usize, pop: &Tree, spec: &Tree, shared_genomes: bool) -> Option<Tree> {
+fn run_pol<R: Res>(seed: u64, n: usize, pop: &Tree, spec: &Tree, shared_genomes: bool, warm: &[usize]) -> Option<Tree> {
     // with `shared_genomes` neighbouring individuals carry the SAME genome (re-evaluated copies with
     // possibly different results): selection must look at the results only
     let population: Pop<R> = pop
@@ -205,6 +205,16 @@ fn run_pol<R: Res>(seed: u64, n: usize, pop: &Tree, spec: &Tree, shared_genomes:
         Built::Sel(s) => s,
         Built::Overflow(x, y) => return Some(L(vec![tl![A(-10), a(a_i(x)), a(a_i(y))]])),
     };
+    // the SAME selector value is first used on other populations (other sizes): a selector carries no state
+    // from call to call, so this must not matter for what follows
+    let cases = population.first().map_or(1, |i: &EcIndividual<u32, TestResults<R>>| i.test_results.results.len());
+    let mut wrng = Sm::new(seed ^ 0x5bd1_e995);
+    for &m in warm {
+        let wp: Pop<R> = (0..m).map(|j| EcIndividual::new(1000 + j as u32, TestResults::<R>::from(vec![(j % 3) as i64; cases]))).collect();
+        for _ in 0..3 {
+            let _ = sel.select(&wp, &mut wrng);
+        }
+    }
     let mut rng = Sm::new(seed);
     let mut hist: BTreeMap<i64, u64> = BTreeMap::new();
     for _ in 0..n {
@@ -228,14 +238,21 @@ fn run(input: &Tree) -> Option<Tree> {
         return None;
     }
     let p = l.get(2)?.list()?;
-    if p.len() != 3 {
+    if p.len() != 3 && p.len() != 4 {
+        return None;
+    }
+    let warm: Vec<usize> = match p.get(3) {
+        Some(w) => w.list()?.iter().map(Tree::usize).collect::<Option<_>>()?,
+        None => vec![],
+    };
+    if warm.iter().any(|m| *m > 4096) {
         return None;
     }
     match p.first()?.int()? {
-        1 => run_pol::<Score<i64>>(seed, n, p.get(1)?, p.get(2)?, false),
-        0 => run_pol::<Error<i64>>(seed, n, p.get(1)?, p.get(2)?, false),
-        3 => run_pol::<Score<i64>>(seed, n, p.get(1)?, p.get(2)?, true),
-        2 => run_pol::<Error<i64>>(seed, n, p.get(1)?, p.get(2)?, true),
+        1 => run_pol::<Score<i64>>(seed, n, p.get(1)?, p.get(2)?, false, &warm),
+        0 => run_pol::<Error<i64>>(seed, n, p.get(1)?, p.get(2)?, false, &warm),
+        3 => run_pol::<Score<i64>>(seed, n, p.get(1)?, p.get(2)?, true, &warm),
+        2 => run_pol::<Error<i64>>(seed, n, p.get(1)?, p.get(2)?, true, &warm),
         _ => None,
     }
 }
@@ -246,6 +263,10 @@ fn tv(v: &[i64]) -> Tree {
 }
 fn case(rng: &mut Sm, n: usize, pol: i64, pop: Vec<Vec<i64>>, spec: Tree) -> Tree {
     tl![a(rng.next() >> 1), au(n), tl![a(pol), L(pop.iter().map(|r| tv(r)).collect()), spec]]
+}
+/// the same, with the selector value used on populations of the given sizes beforehand
+fn case_warm(rng: &mut Sm, n: usize, pol: i64, pop: Vec<Vec<i64>>, spec: Tree, warm: &[usize]) -> Tree {
+    tl![a(rng.next() >> 1), au(n), tl![a(pol), L(pop.iter().map(|r| tv(r)).collect()), spec, L(warm.iter().map(|m| au(*m)).collect())]]
 }
 /// populations whose individuals with equal totals have identical result vectors
 fn pop_by_total(rng: &mut Sm, n: usize, ties: bool) -> Vec<Vec<i64>> {
@@ -310,7 +331,14 @@ fn gen_c06(tier: &str, rng: &mut Sm) -> Gen {
                     },
                     tl![A(5), A(3), dynlist(rng, n, 2, &w, false)],
                 ] {
-                    g.inputs.push(case(rng, draws, pol, pop.clone(), spec));
+                    // every third configuration: the selector value has served other populations before
+                    // (larger, then smaller) - selectors carry no state from call to call
+                    if rng.chance(1, 3) {
+                        let warm = [n + 5 + rng.below(20), rng.below(n + 1)];
+                        g.inputs.push(case_warm(rng, draws, pol, pop.clone(), spec, &warm));
+                    } else {
+                        g.inputs.push(case(rng, draws, pol, pop.clone(), spec));
+                    }
                 }
             }
         }
@@ -331,6 +359,11 @@ fn gen_c07(tier: &str, rng: &mut Sm) -> Gen {
                 let pol = if reps > 1 { ((rep + n) % 4) as i64 } else { rng.range(0, 3) };
                 for k in 1..=n {
                     g.inputs.push(case(rng, draws, pol, pop.clone(), tl![A(3), au(k)]));
+                    // a selector value that has already served a larger, and then a smaller, population
+                    if (n + k) % 3 == 0 {
+                        g.inputs.push(case_warm(rng, draws, pol, pop.clone(), tl![A(3), au(k)], &[n + 9]));
+                        g.inputs.push(case_warm(rng, draws, pol, pop.clone(), tl![A(3), au(k)], &[n + 40, k.max(n.saturating_sub(2)).max(1)]));
+                    }
                 }
                 g.inputs.push(case(rng, 200, pol, pop.clone(), tl![A(0)]));
                 g.inputs.push(case(rng, 200, pol, pop.clone(), tl![A(1)]));
